@@ -284,10 +284,10 @@ pub(crate) fn generate(profile: &str, tier: &str, seed: u64) -> Scenario {
     };
     // layer B only: many tiny blocks exist at once while the submitter cannot yet take them (the
     // Celestia node does not answer), so the 128-slot channel fills up and the reader is paused
-    let backpressure = whole_process && !enum_kill && rng.chance(3, 20);
+    let backpressure = whole_process && !enum_kill && rng.chance(if nokill { 3 } else { 2 }, 20);
     let size_class = if backpressure { 0 } else { size_class };
     let n_blocks: u32 = if backpressure {
-        rng.range(135, 220) as u32
+        rng.range(131, if tier == "thorough" { 220 } else { 150 }) as u32
     } else if enum_kill {
         rng.range(1, 5) as u32
     } else if size_class == 3 {
